@@ -27,5 +27,5 @@ META = {
     "design_ref": "DESIGN.md section 4, C18",
     "technique": "model-based stateful PBT (rapidcheck) of generated routine scripts plus a main-context script on one cooperative Scheduler bound to one event Loop: instrumented wrappers around every call, a reference model of each primitive (FIFO of values, mutex holder, semaphore count, outstanding condition set), and a quiescence check each time the loop goes idle; g++ build without sanitizers (ucontext), plus a reduced ASan/UBSan smoke run of the same harness",
     "level_text": "Generated sets of 2-6 routine scripts over yield / wait / send / recv / lock / unlock / acquire / release / broadcast wait+post / condition add+wait+post / join / create / cancel on 1-2 channels, mutexes and semaphores (initial count 0-2), interleaved with a generated main-context script (run until idle, let 1-3 passes go by, resume, cancel, send, release, post, create, cleanup) that is executed between loop passes. Checked at every return: a received value is the oldest undelivered value of its channel, a successful lock finds the mutex free, a successful acquire finds a positive count, a call pending at cancel/cleanup fails, join answers true only after the target finished. Checked each time the loop went idle: nobody is suspended on a non-empty channel, a free mutex, a positive semaphore, a posted broadcast, a satisfied condition or a finished join target; every cancelled routine has terminated. After cleanup(): every started routine has returned and no token is alive. Exploration only: no counter-example among N generated script sets.",
-    "level_note": "Trusted: the reference model and wrappers in harness/C18/coroutines.cpp, the idle detection (two loop passes without any logged event), routine scripts that obey cancellation as the API requires. Not asserted (statement silent): order among waiters, spurious or early returns of wait-like calls, results of refused cond.wait/join and of join on an already finished routine, whether cleanup() starts never-started routines. A routine that the main context resumed while it was blocked in a primitive is exempt from 'join true implies target finished'. Scripts are loop-free (at most 40 steps per routine, 60 main ops); one scheduler per case, not reused after cleanup(). The search build has no sanitizer (ucontext); memory safety is only covered by the reduced ASan run with stack-use-after-return detection off.",
+    "level_note": "Trusted: the reference model and wrappers in harness/C18/coroutines.cpp, the idle detection (two loop passes without any logged event), routine scripts that obey cancellation as the API requires. Not asserted (statement silent): order among waiters, spurious or early returns of wait-like calls, results of refused cond.wait/join and of join on an already finished routine, whether cleanup() starts never-started routines. A routine that the main context resumed while it was blocked in a primitive is exempt from 'join true implies target finished'. Scripts are loop-free (at most 40 steps per routine, 60 main ops); one scheduler and one loop per case, used for 1-3 lives separated by cleanup(). The search build has no sanitizer (ucontext); memory safety is only covered by the reduced ASan run with stack-use-after-return detection off.",
 }
